@@ -11,14 +11,19 @@
    reader (both fixed-length formats) a source fault is never swallowed: the layer ends with a
    fault value, never io.EOF, after exactly the lines of the fault-free run over the delivered
    bytes; NewTransform's probe fails with the fault when it meets it first.
-   Partial: the bound in Reads for whole formats and "except possibly the last" against the
-   untruncated input are checked on the implementation by the c16 oracle only; scanner, csv, json
-   and xml layers: model + correspondence / trusted error transparency. *)
+   (3) fault_prefix_agrees against the UNTRUNCATED input, for the line reader and for the delimiter
+   scanner: everything delivered before the fault surfaces, except possibly the last line (for the
+   EDI scanner: nothing excepted), is what the fault-free run over the whole input delivers;
+   (4) per-layer bounds: once the fault sits in a layer's buffer, at most one more line / token per
+   buffered byte (<= buffer size) comes before the fault is reported.
+   Partial: the bound in Reads for whole formats is checked on the implementation by the c16
+   oracle (fatal result no later than one Read after the terminal Read of the run over the
+   delivered bytes); csv, json and xml layers: trusted error transparency of the stdlib decoders. *)
 From Coq Require Import List NArith Bool Arith.
 From Coq.Strings Require Import Byte.
 Import ListNotations.
 From OV Require Import Base.Bytes Base.ErrClass Model.Latch Gen.Continuable Proofs.Latch Model.Chunk Model.Fault
-  Proofs.Chunk Proofs.ChunkTop Proofs.Fault Proofs.FaultLines.
+  Proofs.Chunk Proofs.ChunkLines Proofs.ChunkTop Proofs.ChunkScan Proofs.Fault Proofs.FaultLines Proofs.FaultPrefix.
 
 (* For each of the seven formats, every class the reader wraps an input failure into is
    non-continuable for the built-in ingester (tables extracted from the source each run). *)
@@ -75,6 +80,80 @@ Theorem stack_fault_surfaces : forall N gas fuel cs wl t res,
   bom_lines N gas fuel (mkSrc cs wl t) = Ok res /\
   exists f, match res with inl e => e = IoFault f | inr (_, e) => e = IoFault f end.
 Proof. exact stack_fault_surfaces. Qed.
+
+(* fault_prefix_agrees, line reader, on streams: p delivered then any tail, against p ++ q. *)
+Theorem lines_fault_prefix_agrees : forall N fuel p q t t' lsA eA lsB eB,
+  a_read_lines N fuel (p, t) = Ok (lsA, eA) ->
+  a_read_lines N fuel (p ++ q, t') = Ok (lsB, eB) ->
+  exists rest, lsB = removelast lsA ++ rest.
+Proof. exact lines_fault_prefix_agrees. Qed.
+
+(* ... and on chunk sources, any chunkings of both. *)
+Theorem lines_fault_prefix_agrees_src : forall N gas fuel csA csB wlA wlB t q lsA eA lsB eB,
+  4 <= N -> runs_ok csA = true -> runs_ok csB = true ->
+  weight csA + 1 < gas -> weight csB + 1 < gas ->
+  concat csB = concat csA ++ q ->
+  a_read_lines N fuel (concat csA, t) = Ok (lsA, eA) ->
+  a_read_lines N fuel (concat csB, TEof) = Ok (lsB, eB) ->
+  read_lines source io_read N gas fuel b_init (mkSrc csA wlA t) = Ok (lsA, eA) /\
+  read_lines source io_read N gas fuel b_init (mkSrc csB wlB TEof) = Ok (lsB, eB) /\
+  exists rest, lsB = removelast lsA ++ rest.
+Proof. exact lines_fault_prefix_agrees_src. Qed.
+
+(* fault_prefix_agrees, delimiter scanner (any prefix-stable delimiter search). *)
+Theorem scan_fault_prefix_agrees : forall find dlen incl eofd, 1 <= dlen ->
+  (forall d i, find d = Some i -> i + dlen <= length d) ->
+  (forall d r i, find d = Some i -> find (d ++ r) = Some i) ->
+  forall fuel p q t t' tsA eA tsB eB,
+  a_scan_all find dlen incl eofd fuel p t = Ok (tsA, eA) ->
+  a_scan_all find dlen incl eofd fuel (p ++ q) t' = Ok (tsB, eB) ->
+  exists rest, tsB = (if eofd then removelast tsA else tsA) ++ rest.
+Proof. exact scan_fault_prefix_agrees. Qed.
+
+Theorem scan_fault_prefix_agrees_src : forall delim esc buflen gas fuel csA csB wlA wlB t q tsA eA tsB eB,
+  full_rune delim = true -> buflen <= MaxScanTokenSize ->
+  runs_ok csA = true -> runs_ok csB = true ->
+  weight csA + 1 < gas -> weight csB + 1 < gas ->
+  concat csB = concat csA ++ q ->
+  a_scan_all (byte_index_with_esc delim esc) (length delim) true false fuel (concat csA) t = Ok (tsA, eA) ->
+  a_scan_all (byte_index_with_esc delim esc) (length delim) true false fuel (concat csB) TEof = Ok (tsB, eB) ->
+  scan_all source io_read (byte_index_with_esc delim esc) (length delim) true false gas fuel
+           (mkScan 0 [] buflen None) (mkSrc csA wlA t) = Ok (tsA, eA) /\
+  scan_all source io_read (byte_index_with_esc delim esc) (length delim) true false gas fuel
+           (mkScan 0 [] buflen None) (mkSrc csB wlB TEof) = Ok (tsB, eB) /\
+  exists rest, tsB = tsA ++ rest.
+Proof. exact scan_fault_prefix_agrees_src. Qed.
+
+(* Bounds.  Line reader over any well-behaved reader: with the fault pending in the bufio.Reader,
+   at most one more line per buffered byte (<= N), then one of the tail's errors. *)
+Theorem lines_fault_bound : forall St sread Rep wt lead, reader_ok St sread Rep wt lead ->
+  forall N, 4 <= N -> forall gas fuel b x data t e ls e',
+  BR St Rep N (b, x) (data, t) -> b_err b = Some e -> wt x + 1 < gas ->
+  a_read_lines N fuel (data, t) = Ok (ls, e') ->
+  read_lines St sread N gas fuel b x = Ok (ls, e') /\
+  length ls <= length (b_data b) /\ length (b_data b) <= N /\ err_of e' t.
+Proof. exact lines_fault_bound. Qed.
+
+(* Scanner: with the fault seen, at most one more token per buffered byte (<= 64 KiB), then Err(). *)
+Theorem scan_fault_bound : forall find dlen incl eofd, 1 <= dlen ->
+  (forall d i, find d = Some i -> i + dlen <= length d) ->
+  (forall d r i, find d = Some i -> find (d ++ r) = Some i) ->
+  forall St sread Rep wt lead, reader_ok St sread Rep wt lead ->
+  forall gas fuel sc x data t e ts e',
+  SR St Rep (sc, x) data t -> s_err sc = Some e -> sm St wt (sc, x) < gas ->
+  a_scan_all find dlen incl eofd fuel data t = Ok (ts, e') ->
+  scan_all St sread find dlen incl eofd gas fuel sc x = Ok (ts, e') /\
+  length ts <= length (s_data sc) /\ length (s_data sc) <= s_buflen sc /\ s_buflen sc <= MaxScanTokenSize.
+Proof. exact scan_fault_bound. Qed.
+
+(* Non-vacuity of the prefix theorems: the fault arrives inside the second line / segment. *)
+Example c16_prefix_nonvacuous :
+  a_read_lines 8 10 ([x61; x62; x0a; x63], TFault 7) = Ok ([[x61; x62]; [x63]], IoFault 7) /\
+  a_read_lines 8 10 ([x61; x62; x0a; x63] ++ [x64; x0a; x65; x0a], TEof) = Ok ([[x61; x62]; [x63; x64]; [x65]], IoEOF) /\
+  a_scan_all (byte_index_with_esc [x7e] [x3f]) 1 true false 10 [x41; x7e; x42; x3f] (TFault 7) = Ok ([[x41; x7e]], Some (IoFault 7)) /\
+  a_scan_all (byte_index_with_esc [x7e] [x3f]) 1 true false 10 ([x41; x7e; x42; x3f] ++ [x7e; x43; x7e]) TEof
+    = Ok ([[x41; x7e]; [x42; x3f; x7e; x43; x7e]], None).
+Proof. vm_compute. repeat split; reflexivity. Qed.
 
 (* Non-vacuity: "ab\ncd" then fault 7 once, fault 9 forever, cut inside the first line; the
    partial last line "cd" is handed out (swallowing fault 7) and the next call reports fault 9. *)
